@@ -297,6 +297,14 @@ Proof.
   repeat split; simpl; try assumption; try (apply Forall_nil); try reflexivity.
 Qed.
 
+Lemma start_sinv base limit m : bnd m -> sinv (start_at prog sid0 base limit m).
+Proof.
+  intros B. split.
+  - change (start_at prog sid0 base limit m) with (set_ip (set_gas (init_state prog sid0 base limit) 0) m).
+    apply set_gas_ip_ok. apply init_state_ok.
+  - repeat split; simpl; try assumption; try (apply Forall_nil); try reflexivity.
+Qed.
+
 Theorem run_sinv : forall n s s', sinv s -> run n s = Running s' -> sinv s'.
 Proof.
   induction n as [|n IH]; intros s s' K; simpl; [intros E; inv E; assumption|].
@@ -314,5 +322,18 @@ Theorem static_check_sound prog sid base limit n s :
 Proof.
   unfold script_correct, boundaries. destruct (static_info prog) as [[instrs jumps]|] eqn:Info; [|discriminate].
   intros JI R. pose proof (run_sinv prog sid instrs jumps Info JI n _ s (init_sinv prog sid instrs jumps Info base limit) R) as K.
+  apply K.
+Qed.
+
+(* the same for an execution that starts at a method offset accepted by the check with a methods bit field *)
+Theorem static_check_sound_methods prog sid base limit methods m n s :
+  script_correct_m prog methods = true -> In m methods ->
+  run n (start_at prog sid base limit m) = Running s ->
+  In (f_ip (s_fr s)) (boundaries prog) \/ f_ip (s_fr s) = zlen prog.
+Proof.
+  unfold script_correct_m, script_correct, boundaries. destruct (static_info prog) as [[instrs jumps]|] eqn:Info; [|discriminate].
+  rewrite andb_true_iff. intros [JI Ms] Hm R. rewrite forallb_forall in Ms.
+  assert (B : bnd prog instrs m) by (left; apply mem_z_In; apply Ms; exact Hm).
+  pose proof (run_sinv prog sid instrs jumps Info JI n _ s (start_sinv prog sid instrs base limit m B) R) as K.
   apply K.
 Qed.
